@@ -280,10 +280,15 @@ def _general(ctx, m, f, limit, sep, required):
                 worst = max(worst, r.max_line)
     except StopIteration:
         return
-    except (FUnsupported,) as e:
+    except (FUnsupported, AnalysisError) as e:
         if required:
-            raise AnalysisError(f"foldline: neither the shape rules nor the general abstract "
-                                f"execution apply ({e})")
+            # neither symbolic argument applies to this way of writing foldline: the
+            # octet bound is then decided only by the bounded execution C06/PHYS-MODEL
+            ctx.note(f"C06: neither the linear-form rules nor the general abstract execution "
+                     f"apply to foldline as written ({e}); the 75-octet bound is decided by "
+                     f"C06/PHYS-MODEL (bounded) only - the 'proof' level does not hold for this tree")
+            ctx.extra["bound_decided_by"] = "PHYS-MODEL only"
+            return
         ctx.note(f"general abstract execution not applicable: {e}")
         return
     except FRaise as e:
